@@ -44,9 +44,22 @@ func tView(v *cluster.ClusterView) lib.T {
 		lib.L(lib.NI(v.HealthyCount), lib.NI(v.UnhealthyCount), lib.NI(v.QuorumSize)), lib.LS(ms), tVV(cluster.XVDump(v.VersionVector)))
 }
 
+// lastUnavailable: the per-peer last-vector table of the NodeActor could not be located (xv_gossip_verif.go XVLast): its
+// dump is () in every node state, every case carries the option "hide the last-vector table" so that the model prints
+// () too (coq/Cluster/GossipRun.v), and the report says that this observation is UNAVAILABLE.
+var lastUnavailable bool
+
+// lastWhere: where the accessor found the table (reported in the evidence)
+var lastWhere = ""
+
 func tNode(n *SNode) lib.T {
 	a := n.actor
-	last := a.XVLast()
+	last, lastOK := a.XVLast()
+	if !lastOK {
+		lastUnavailable = true
+	} else if lastWhere == "" {
+		lastWhere = a.XVLastWhere()
+	}
 	ks := make([]string, 0, len(last))
 	for k := range last {
 		ks = append(ks, k)
